@@ -78,7 +78,10 @@ func (c *Collection) writeWithMeta(key string, body []byte, xattrs []byte, oldCa
 				isJSON:     isJSON,
 				revSeqNo:   revSeqNo,
 			}
-			return c.storeDocument(txn, e)
+			if err := c.storeDocument(txn, e); err != nil {
+				return err
+			}
+			return c.noteForeignCas(txn, newCas)
 		})
 	}, &e)
 	if err != nil {
@@ -88,6 +91,22 @@ func (c *Collection) writeWithMeta(key string, body []byte, xattrs []byte, oldCa
 		c.bucket.expManager.scheduleExpirationAtOrBefore(e.exp)
 	}
 	return nil
+}
+
+// noteForeignCas keeps the high-water marks and the view indexes consistent after a document has been
+// stored with a caller-chosen CAS: the marks never fall behind it, and since incremental view updates only
+// look at documents above a view's lastCas, a CAS at or below the collection's mark invalidates its views.
+func (c *Collection) noteForeignCas(txn *sql.Tx, cas CAS) error {
+	lastCas, err := c.getLastCas(txn)
+	if err != nil {
+		return err
+	}
+	if cas <= lastCas {
+		_, err = txn.Exec(`UPDATE views SET lastCas=0 WHERE designDoc IN (SELECT id FROM designDocs WHERE collection=?1)`, c.id)
+	} else if _, err = txn.Exec(`UPDATE collections SET lastCas=?1 WHERE id=?2`, cas, c.id); err == nil {
+		_, err = txn.Exec(`UPDATE bucket SET lastCas=max(lastCas, ?1)`, cas)
+	}
+	return err
 }
 
 // DeleteWithMeta tombstones a document and sets a specific cas. This update will always happen as long as oldCas matches the value of existing document. This simulates the kv op deleteWithMeta.
